@@ -149,6 +149,19 @@ def definedSigs (cc : CFile) (structName : Str) : List SigEntity :=
       readSig l'
     else none
 
+/-- maximal runs of identifier characters of a line -/
+def identTokens (l : Str) : List Str :=
+  let rec go : Str → Str → List Str
+    | [], cur => if cur.isEmpty then [] else [cur.reverse]
+    | c :: cs, cur =>
+      if c.isAlphanum || c = '_' then go cs (c :: cur)
+      else if cur.isEmpty then go cs [] else cur.reverse :: go cs []
+  go l []
+
+/-- the `m_…` member names the source file uses -/
+def usedMembers (cc : CFile) : List Str :=
+  (((splitlines cc.contents).filter isCodeLine).flatMap identTokens).filter (fun t => (L "m_").isPrefixOf t) |>.eraseDups
+
 def sigKey (s : SigEntity) : Str × List (Str × Str) × Str := (s.name, s.params, s.cav)
 
 /-- structural clauses of C06; returns (clause, detail) pairs -/
@@ -169,6 +182,8 @@ def holdsC06 (files : List CFile) (structName modelHeader : Str) : List (String 
      if (splitlines f.contents).any (fun l => l = L "namespace {") then some ("named-scope", f.name) else none) ++
   -- member names pairwise distinct
   (if hasDuplicates (memberNames hh) then [("member-names-distinct", hh.name)] else []) ++
+  -- every member the source file uses is declared in the struct
+  ((usedMembers cc).filterMap fun m => if (memberNames hh).contains m then none else some ("member-used-but-not-declared", m)) ++
   -- every declared member function is defined once with a matching signature, and vice versa
   (let ds := (declaredSigs hh).map sigKey
    let fs := (definedSigs cc structName).map sigKey
